@@ -67,17 +67,20 @@ CANON = {
 }
 
 BAD = {
-    "INT": ["abc", "12a"],
-    "LENGTH": ["abc"],
-    "SEQNUM": ["abc", "0", "-1"],      # "value must be positive" (EndSeqNo(16)=0 is the one exception)
-    "NUMINGROUP": ["abc"],
-    "DAYOFMONTH": ["32", "abc", "0"],
-    "FLOAT": ["abc", "1.2.3"],
-    "QTY": ["abc", "1.2.3"],
-    "PRICE": ["abc", "1.2.3"],
-    "PRICEOFFSET": ["abc", "1.2.3"],
-    "AMT": ["abc", "1.2.3"],
-    "PERCENTAGE": ["abc", "1.2.3"],
+    # numbers: garbage, then values that START like a legal literal and have an illegal tail (FIX int =
+    # digits with optional sign, FIX float = digits with optional decimal point and sign: no blanks, no
+    # line feed, no digit grouping, no exponent, one decimal point, no letters)
+    "INT": ["abc", "1 ", "12a", "1_0", "1\n", "1.0"],
+    "LENGTH": ["abc", "1 ", "1_0", "1\n"],
+    "SEQNUM": ["abc", "0", "1 ", "-1", "1_0", "1\n"],  # "must be positive" (EndSeqNo(16)=0 is the one exception)
+    "NUMINGROUP": ["abc", "1 ", "1_0"],
+    "DAYOFMONTH": ["32", "abc", "1 ", "0", "1_0", "1\n"],
+    "FLOAT": ["abc", "1e2", "1.2.3", "10.5 ", "1_0.5", "1\n", "1.5x"],
+    "QTY": ["abc", "1e2", "1.2.3", "10.5 ", "1_0.5", "1\n", "1.5x"],
+    "PRICE": ["abc", "1e2", "1.2.3", "10.5 ", "1_0.5", "1\n", "1.5x"],
+    "PRICEOFFSET": ["abc", "1e2", "1.2.3", "10.5 ", "1_0.5", "1\n", "1.5x"],
+    "AMT": ["abc", "1e2", "1.2.3", "10.5 ", "1_0.5", "1\n", "1.5x"],
+    "PERCENTAGE": ["abc", "1e2", "1.2.3", "10.5 ", "1_0.5", "1\n", "1.5x"],
     "CHAR": ["ab"],
     "BOOLEAN": ["X", "YN"],
     "STRING": ["a\x01b"],
@@ -529,6 +532,10 @@ def valid_instances(dc, mi, quick_subset, thorough=True):
             yield "with_header_group", ho + build(hg, False, "max", two=True) + mn + trailer_nodes(dc, False)
         if len(dc.d.trailer) > 1:
             yield "with_optional_trailer_fields", h + mn + trailer_nodes(dc, True)
+    # framing / trailer tags early in the tag order (a decoded message that was amended, a hand-built one)
+    for pname, wrap in framings(dc, mt):
+        yield "framing_tags_" + pname, wrap(mx)
+        yield "framing_tags_" + pname, wrap(build(members, False, "groups", two=True))
     if quick_subset:
         return
     for p, m, level, i in positions(members):
@@ -595,7 +602,7 @@ def bad_values(m, all_values):
         return
     t = m["typ"].upper()
     vals = BAD.get(t, [])
-    for v in (vals if all_values else vals[:1]):
+    for v in (vals if all_values else vals[:2]):
         if SPECIAL_VALID.get(m["tag"]) == v:
             continue
         yield "value_outside_type:" + t, v
@@ -682,6 +689,18 @@ def faults(dc, mi, base, thorough, only_in_groups=False, swap_first_only=False):
             env = [t for t in dc.env_group_members if t not in all_tags]
             for t in (env if thorough else env[SEED % len(env):][:1] if level == 0 and env else []):
                 yield "header_group_member_outside_its_group", lv, ins([t, canon_value(dc.field_member(t))]), t
+
+
+def framings(dc, mt):
+    """(name, wrap): wrap(body tree) -> the same body with framing / trailer tags in front of it or after
+    its first member.  The body members that follow are judged exactly as without those tags."""
+    tr_all = trailer_nodes(dc, True)     # 93, 89 (if the dictionary has them) and 10
+    out = [("checksum_first", lambda t: [["10", "123"]] + t),
+           ("trailer_after_first_member", lambda t: t[:1] + tr_all + t[1:])]
+    h = header_nodes(dc, mt, False)
+    if h is not None:
+        out.append(("header_and_trailer_first", lambda t: h + tr_all + t))
+    return out
 
 
 def header_faults(dc, mi, thorough):
@@ -833,6 +852,32 @@ def _work(item):
             k = "fault:" + cls.split(":")[0] + "|" + lv
             res["classes"][k] = res["classes"].get(k, 0) + 1
             record(judge_fault(did, name, mt, "minimal+header", cls, lv, note, tree, v))
+    elif part == "faults_framed":
+        # the faults of the minimal instance (all fault values) and the in-group faults of the all-groups
+        # instance, placed AFTER framing / trailer tags
+        mn = build(members, False, "min")
+        gr = build(members, False, "groups")
+        for pname, wrap in framings(dc, mt):
+            gens = []
+            if run_one(wrap(mn), again=True) == "True":
+                gens.append(("minimal", faults(dc, mi, mn, True)))
+            else:
+                res["base_invalid"] += 1
+            if pname == "checksum_first" and gr != mn:
+                if run_one(wrap(gr), again=True) == "True":
+                    gens.append(("all_groups", faults(dc, mi, gr, False, only_in_groups=True)))
+                else:
+                    res["base_invalid"] += 1
+            for bname, gen in gens:
+                for cls, lv, tree, note in gen:
+                    tree = wrap(tree)
+                    v = run_one(tree)
+                    if v is None:
+                        continue
+                    lv2 = lv + "_after_framing_tags"
+                    k = "fault:" + cls.split(":")[0] + "|" + lv2
+                    res["classes"][k] = res["classes"].get(k, 0) + 1
+                    record(judge_fault(did, name, mt, bname + "+" + pname, cls, lv2, note, tree, v))
     else:
         mn = build(members, False, "min")
         if part == "faults_min":
@@ -859,7 +904,7 @@ def _work(item):
                 k = "fault:" + cls.split(":")[0] + "|" + lv
                 res["classes"][k] = res["classes"].get(k, 0) + 1
                 record(judge_fault(did, name, mt, bname, cls, lv, note, tree, v))
-    res["n"] = len(seen) - (nbase if part.startswith("faults") else 0)
+    res["n"] = len(seen) - (nbase if part in ("faults_min", "faults_max", "faults_two") else 0)
     return res
 
 
@@ -1236,9 +1281,9 @@ def run(ctx):
             continue
         for mi, (name, mt, members) in enumerate(dc.msgs):
             sz = count_positions(members)
-            parts = ["valid", "faults_min", "faults_max", "faults_two", "header"]
+            parts = ["valid", "faults_min", "faults_max", "faults_two", "faults_framed", "header"]
             if ctx.quick and did == "TT":
-                parts = ["valid", "faults_min", "faults_two", "header"]
+                parts = ["valid", "faults_min", "faults_two", "faults_framed", "header"]
             for part in parts:
                 items.append((sz, DICT_IDS.index(did), mi, part))
     # big first for load balance; merged simplest-first below
@@ -1247,7 +1292,7 @@ def run(ctx):
     gc.collect()
     gc.freeze()  # keep the inherited dictionaries out of the workers' collector (less copy-on-write)
     results = ctx.pmap(_work, work, chunk=1)
-    rank = {"valid": 0, "faults_min": 1, "faults_max": 2, "faults_two": 3, "header": 4}
+    rank = {"valid": 0, "faults_min": 1, "faults_max": 2, "faults_two": 3, "header": 4, "faults_framed": 5}
     merged = sorted(zip(sched, results), key=lambda x: (x[0][3] == "header", x[0][0], x[0][1], x[0][2], rank[x[0][3]]))
     classes = {}
     for (sz, di, mi, part), r in merged:
